@@ -40,7 +40,8 @@ type Vector struct {
 	Val     json.RawMessage          `json:"val"`
 	Mech    map[string]string        `json:"mech"`
 	Extra   map[string]interface{}   `json:"extra"`
-	ID      int                      `json:"id"` // line number in the vector file (set by the reader)
+	JID     *int                     `json:"id"` // id given by the check (position in the full vector list), if any
+	ID      int                      `json:"-"`  // id used for seeding and reporting: line number, or JID where the file is a subset
 }
 
 func num(m map[string]interface{}, k string) int {
